@@ -213,6 +213,10 @@ def run_prover(root, prop, tier, jobs):
 
 
 def main(argv=None):
+    if argv is None and os.environ.get("PYTHONHASHSEED") != "0":
+        # identical obligation text on every run (see ./check): re-exec with a fixed hash seed
+        os.environ["PYTHONHASHSEED"] = "0"
+        os.execv(sys.executable, [sys.executable, "-B", "-m", "pyvc.run"] + sys.argv[1:])
     ap = argparse.ArgumentParser()
     ap.add_argument("prop")
     ap.add_argument("--tier", default=os.environ.get("VERIF_TIER", "quick"), choices=["quick", "thorough"])
